@@ -373,6 +373,23 @@ class SsbGraphMinimizer:
                         vs_to_delete.add(next_vertex)
                         next_vertex = else_edge_target_vertex
                     # Else edge:
+                    if (
+                        next_vertex is not None
+                        and case_i > -1
+                        and isinstance(next_vertex["op"], SsbLabelJump)
+                        and next_vertex["op"].maybe_root is not None
+                        and next_vertex["op"].root.op_code.name == OP_JUMP
+                        and len(next_vertex.in_edges()) == 0
+                        and len(next_vertex.out_edges()) == 1
+                        and not next_vertex.out_edges()[0]["loop"]
+                        and isinstance(next_vertex.out_edges()[0].target_vertex["op"], SsbLabel)
+                    ):
+                        # The default case is nothing but a jump: the default leads to where it jumps to
+                        # (and can be grouped with cases that lead to the same place).
+                        vs_to_delete.add(next_vertex)
+                        jump_edge = next_vertex.out_edges()[0]
+                        next_vertex = jump_edge.target_vertex
+                        g.delete_edges(jump_edge)
                     if next_vertex is not None:
                         v_else_edge = next(e for e in v.out_edges() if e["switch_ops"] is None)
                         if not v_else_edge.target_vertex == next_vertex:
